@@ -1,4 +1,5 @@
 #![cfg(feature = "topic")]
+#![allow(unexpected_cfgs)] // `excsn_fibre_verif` gates the verification seam H8 (scheduling points)
 
 use super::core::{SpmcTopicDispatcher, SubscriberList};
 use super::mailbox;
@@ -57,6 +58,8 @@ where
       return Err(SendError::Closed);
     }
 
+    #[cfg(all(excsn_fibre_verif, not(loom)))]
+    crate::sync::verif_hook::point(); // verification seam H8
     let pinned_map = self.dispatcher.subscriptions.pin();
 
     if let Some(list_arc) = pinned_map.get(&topic) {
@@ -68,6 +71,8 @@ where
       drop(mailboxes_snapshot); // Guard is dropped, no locks held.
 
       for mailbox_weak in subscribers.iter() {
+        #[cfg(all(excsn_fibre_verif, not(loom)))]
+        crate::sync::verif_hook::point(); // verification seam H8
         if let Some(mailbox_strong) = mailbox_weak.upgrade() {
           mailbox_strong.deliver((topic.clone(), value.clone()));
         }
@@ -106,6 +111,8 @@ where
   fn close_internal(&self) {
     // Drop logic is now just the close logic.
     // The drop impl will call this.
+    #[cfg(all(excsn_fibre_verif, not(loom)))]
+    crate::sync::verif_hook::point(); // verification seam H8
     let pinned_map = self.dispatcher.subscriptions.pin();
     for (_topic, list_arc) in pinned_map.iter() {
       let subscribers_snapshot = list_arc.reader.enter();
@@ -227,6 +234,8 @@ where
       return; // Already subscribed.
     }
     drop(subs); // Release the lock before interacting with the dispatcher.
+    #[cfg(all(excsn_fibre_verif, not(loom)))]
+    crate::sync::verif_hook::point(); // verification seam H8
 
     // Now, interact with the dispatcher without holding our local subscription lock.
     if let Some(dispatcher) = self.dispatcher.upgrade() {
@@ -236,6 +245,8 @@ where
         .get_or_insert_with(topic, || Arc::new(SubscriberList::new()))
         .clone();
 
+      #[cfg(all(excsn_fibre_verif, not(loom)))]
+      crate::sync::verif_hook::point(); // verification seam H8
       // This acquires the left_right writer lock, but no other locks are held.
       list_arc.writer.modify(|list| {
         // Prune dead weak pointers from the list.
@@ -264,6 +275,8 @@ where
       return; // Not subscribed, nothing to do.
     }
     drop(subs); // Release the lock.
+    #[cfg(all(excsn_fibre_verif, not(loom)))]
+    crate::sync::verif_hook::point(); // verification seam H8
 
     // Now, interact with the dispatcher.
     if let Some(dispatcher) = self.dispatcher.upgrade() {
@@ -308,11 +321,15 @@ where
   }
 
   fn close_internal(&self) {
+    #[cfg(all(excsn_fibre_verif, not(loom)))]
+    crate::sync::verif_hook::point(); // verification seam H8
     if let Some(dispatcher) = self.dispatcher.upgrade() {
       let topics_to_unsubscribe: Vec<K> = self.subscriptions.lock().drain().collect();
       for topic in topics_to_unsubscribe {
         self.unsubscribe(&topic);
       }
+      #[cfg(all(excsn_fibre_verif, not(loom)))]
+      crate::sync::verif_hook::point(); // verification seam H8
       dispatcher.receiver_count.fetch_sub(1, Ordering::Relaxed);
     }
   }
@@ -355,6 +372,8 @@ where
   fn clone(&self) -> Self {
     if let Some(dispatcher) = self.dispatcher.upgrade() {
       dispatcher.receiver_count.fetch_add(1, Ordering::Relaxed);
+      #[cfg(all(excsn_fibre_verif, not(loom)))]
+      crate::sync::verif_hook::point(); // verification seam H8
 
       // Get the capacity from the existing consumer.
       let mailbox_capacity = self.consumer.capacity();
